@@ -15,11 +15,29 @@ RULE = ("one-dimensional sweeps (exhaustive): each of the six timestamps over th
         "and SubjectConfirmationData; seeded random combinations of all six.  Every case is a signed Response run "
         "through parse_authn_request_response under a frozen virtual clock.  non-trivial = distinct (field, offset "
         "class, skew, syntax) tuples where at least one timestamp is not at its baseline position")
-TRUSTED = ["xmlsec1 stand-in", "renderer harness/render.py", "virtual clock harness/env.py (patches saml2.time_util.time/datetime)"]
+TRUSTED = ["source-to-Gallina translator harness/py2coq.py + coq/theories/Base/Py.v (validate_on_or_after / validate_before are "
+           "re-translated from the source text on every run; c05_source_* prove them equal to the model)",
+           "xmlsec1 stand-in", "renderer harness/render.py", "virtual clock harness/env.py (patches saml2.time_util.time/datetime)"]
 ASSUMPTIONS = ["timestamps later than 1970 + skew", "clock reads whole seconds (utc_now truncates)",
                "bearer SubjectConfirmationData with NotBefore also carries NotOnOrAfter (completeness half only)"]
 
 NOW = spaccept.NOW
+
+
+def regenerate_tables(ctx):
+    """Translator: validate.validate_on_or_after / validate_before as they read NOW -> coq/gen/C05Src.v;
+    C05/Source.v proves them equal to the model (clock and timestamp parser are parameters)."""
+    import os
+    from harness import common, py2coq
+    calls = {"time_util.utc_now": lambda a: "now", "calendar.timegm": lambda a: "(to_secs %s)" % a[0],
+             "time_util.str_to_time": lambda a: a[0], "time.strftime": lambda a: "PNone", "time.gmtime": lambda a: "PNone"}
+    ex = [("now", "pyval"), ("to_secs", "pyval -> pyval")]
+    src = os.path.join(env.SRC, "saml2", "validate.py")
+    return py2coq.regenerate(os.path.join(common.GEN, "C05Src.v"), [
+        (src, "validate_on_or_after", {"name": "src_validate_on_or_after", "params": ["not_on_or_after", "slack"],
+                                       "extra_params": ex, "calls": calls}),
+        (src, "validate_before", {"name": "src_validate_before", "params": ["not_before", "slack"],
+                                  "extra_params": ex, "calls": calls})])
 FIELDS = ["cnb", "cnooa", "snb", "snooa", "sess", "issue"]
 BASE = {"cnb": -300, "cnooa": 300, "snb": None, "snooa": 300, "sess": None, "issue": 0}
 SKEWS = [None, 0, 60, 180]
